@@ -43,11 +43,12 @@ const longWatchdog = 150 * time.Second
 
 // input is one hostile input for an entry point.
 type input struct {
-	data  []byte   // the hostile bytes (what is written to the replay dir)
-	ops   []string // "operator@pointer" of the mutations that produced it (empty: an unmodified valid seed)
-	seed  string   // name of the valid instance it was derived from
-	aux   any      // prepared form for the call (optional)
-	valid bool     // an unmodified valid instance: must be accepted, else the harness is broken
+	data  []byte       // the hostile bytes (what is written to the replay dir)
+	ops   []string     // "operator@pointer" of the mutations that produced it (empty: an unmodified valid seed)
+	seed  string       // name of the valid instance it was derived from
+	aux   any          // prepared form for the call (optional)
+	valid bool         // an unmodified valid instance: must be accepted, else the harness is broken
+	regen func() input // valid instances that carry dates: builds the same instance afresh (a queued one can have expired on a loaded machine)
 }
 
 func (in input) class() string {
@@ -369,7 +370,11 @@ func (h *harness) one(e *entry, st *stats, in input) {
 	st.mu.Unlock()
 	if in.valid && o.err != nil {
 		// once more before calling the harness broken (a loaded machine can time a request out)
-		if o2 := guarded(func() error { return e.call(in) }, watchdog); !o2.panicked && !o2.timeout && o2.err == nil {
+		again := in
+		if in.regen != nil {
+			again = in.regen()
+		}
+		if o2 := guarded(func() error { return e.call(again) }, watchdog); !o2.panicked && !o2.timeout && o2.err == nil {
 			o = o2
 		}
 	}
@@ -500,6 +505,12 @@ func genJSON(seeds []jsonSeed, slow bool, wrap func(s jsonSeed, m jmut.Mutant) (
 			in, ok := wrap(s, jmut.Mutant{Tree: s.tree, Data: s.tree.Bytes()})
 			if ok {
 				in.valid, in.seed = true, s.name
+				s := s
+				in.regen = func() input {
+					fresh, _ := wrap(s, jmut.Mutant{Tree: s.tree, Data: s.tree.Bytes()})
+					fresh.valid, fresh.seed = true, s.name
+					return fresh
+				}
 				emit(in)
 			}
 		}
